@@ -203,11 +203,12 @@ def check_C12(ctx, replay=None):
         for gname, val in re.findall(r'\("(auditArch\w+)"(?:%string)?, (\d+)\)', blk):
             evaluations += 1
             kn = "AUDIT_ARCH_" + gname[len("auditArch"):]
-            if kaudit.get(kn) != int(val):
+            # a name the vendored header does not know (a constant of a newer kernel) is no failing input: the theorem
+            # then no longer checks and says so; a value that differs from the kernel's constant of that name is one
+            if kn in kaudit and kaudit[kn] != int(val):
                 nbad += 1
                 p = ctx.violation("counterexample", dict(what="the constant arch.%s is not the kernel's %s" % (gname, kn), constant=gname, actual="0x%x" % int(val),
-                                                         kernel=("0x%x" % kaudit[kn]) if kn in kaudit else "no such kernel constant",
-                                                         observable="arch.AuditArch(%s).String()" % (("0x%x" % kaudit[kn]) if kn in kaudit else val)), True)
+                                                         kernel="0x%x" % kaudit[kn], observable="arch.AuditArch(0x%x).String()" % kaudit[kn]), True)
                 rewrite_with_replay_cmd(ctx, p)
     except OSError:
         pass
